@@ -244,6 +244,10 @@ def _cases(tier):
                 js = [j for j in range(i + 1, n) if owners[i] is not None and owners[j] == owners[i]]
             for k in range(0, len(js), 4 * CHUNK):
                 yield {"fam": "pair", "base": b, "i": i, "js": js[k : k + 4 * CHUNK], "reduced": reduced}
+    # the quick tier's pairs on one element (they use wrapper retypes the reduced kitchen list leaves out)
+    sp = _same_element_pairs("kitchen")
+    for i in sorted(set(i for i, _ in sp)):
+        yield {"fam": "pair", "base": "kitchen", "i": i, "js": [j for a, j in sp if a == i], "reduced": False}
     ws1 = M.wrappers(1)
     pks = list(cs_bases.WRAPPER_POSITIONS)
     for a in range(len(pks)):
